@@ -178,6 +178,19 @@ Section Dot.
     else if written <? cap then KTail
     else KOk (map (fun t => fst (fst t)) out, map (fun t => snd (fst t)) out, map snd out).
 
+  (* dense meaning of a list of COO cells (row, column, value): the LAST cell at (i, k), else zero *)
+  Fixpoint cell_lookup (cells : list (Z * Z * V)) (i k : Z) : option V :=
+    match cells with
+    | [] => None
+    | (r, c, v) :: t =>
+      match cell_lookup t i k with
+      | Some w => Some w
+      | None => if (r =? i) && (c =? k) then Some v else None
+      end
+    end.
+  Definition coo_cells_den (rows cols : list Z) (data : list V) (i k : Z) : V :=
+    match cell_lookup (combine (combine rows cols) data) i k with Some v => v | None => vzero end.
+
   (* ------------------------------------------------------------------ GCXS(..., prune=True) *)
   (* _prune: mask = data != fill; coords = stack(uncompress_dimension(indptr), indices)[:, mask];
      indptr = [0] ++ cumsum(bincount(coords[0], minlength=row_size)) *)
